@@ -152,6 +152,7 @@ static qtreetbl_obj_t *remove_obj(qtreetbl_t *tbl, qtreetbl_obj_t *obj,
                                   const void *name, size_t namesize);
 static void free_objs(qtreetbl_obj_t *obj);
 static uint8_t reset_iterator(qtreetbl_t *tbl);
+static void reset_tids(qtreetbl_obj_t *obj);
 
 struct branch_obj_s {
     struct branch_obj_s *p;
@@ -1329,7 +1330,22 @@ static uint8_t reset_iterator(qtreetbl_t *tbl) {
     if (tbl->root != NULL) {
         tbl->root->next = NULL;
     }
-    return (++tbl->tid);
+    if (++tbl->tid == 0) {
+        // the 8-bit travel id wrapped around; stamps left by earlier travels
+        // (and the 0 of never visited nodes) could collide with new ids.
+        reset_tids(tbl->root);
+        tbl->tid = 1;
+    }
+    return tbl->tid;
+}
+
+static void reset_tids(qtreetbl_obj_t *obj) {
+    if (obj == NULL) {
+        return;
+    }
+    obj->tid = 0;
+    reset_tids(obj->left);
+    reset_tids(obj->right);
 }
 
 static void print_branch(struct branch_obj_s *branch, FILE *out) {
